@@ -109,14 +109,10 @@ def kindName : Kind → String
   | .winner => "winner" | .params => "params" | .winnerUnknown => "winner-unknown"
 
 def className : Class → String
-  | .unalignedPanic => "unaligned-panic"
-  | .staticPrefix => "static-prefix"
   | .slashParent => "slash-parent"
-  | .baseSlashes => "base-slashes"
   | .optionalParent => "optional-parent"
   | .optionalBackoffOrder => "optional-backoff-order"
   | .optionalFallbackParams => "optional-fallback-params"
-  | .optionalFallbackUnwrap => "optional-fallback-unwrap"
   | .optionalFallbackOvermatch => "optional-fallback-overmatch"
   | .nestedOptionalTuple => "nested-optional-tuple"
   | .unclassified k => "unclassified-" ++ kindName k
@@ -150,18 +146,15 @@ def step (st : St) (line : String) : St × String :=
   | ["match", p] =>
     match pathOfHex p, st.defs with
     | some path, some d =>
-      let got := matchRoute false d path
+      let got := matchRoute .cur d path
       (st, s!"{showOut got} ## {verdict d path got}")
     | _, _ => (st, "bad-op")
   | ["seg", tree, p] =>
     match pathOfHex p, parseSeg 256 (tree.splitOn ",") with
     | some path, some (s, []) =>
       let out :=
-        match s.test false path with
-        | .panic =>
-          -- the segment-aligned variant does not panic on inputs of the `unaligned-panic` class
-          let cls := match s.test true path with | .panic => "unclassified" | _ => "unaligned-panic"
-          s!"panic ## fail {cls}"
+        match s.test .cur path with
+        | .panic => "panic ## fail unclassified-panic"
         | .none => "none ## ok"
         | .some m =>
           let v :=
@@ -183,7 +176,7 @@ def step (st : St) (line : String) : St × String :=
         match buildPath route vs with
         | none => (st, "built0 ## fail unclassified-build-count")
         | some path =>
-          let got := matchRoute false d path
+          let got := matchRoute .cur d path
           let want := names.zip vs
           let v0 := verdict d path got
           let v :=
